@@ -76,7 +76,8 @@ Proof. exact richcmp_ne_refuted. Qed.
 Print Assumptions C28_richcmp_ne_refuted.
 
 (* total_ordering: every subset/behaviour of the four ordering methods (at least one defined), __eq__ defined and
-   answering True/False, no __ne__, X a plain subclass, every operand pair but (T, subclass), every operator *)
+   answering True/False, no __ne__, X a plain subclass, every operand pair but (T, X) / (X, T) - i.e. (T,T), (X,X) and
+   everything against the unrelated U -, every operator *)
 Theorem C28_richcmp_total_ordering_partial : forall o (eb xpy : bool) ub L R op,
   In (L, R, ub) tot_dom -> has_ord o = true ->
   let e := if eb then CTr else CFa in
